@@ -68,6 +68,10 @@ type c02Case struct {
 	// InCase: leaf x is written inside 'choice xch { case xk { ... } }' (a relative leafref path then leaves the case);
 	// Mandatory: leaf x states mandatory true (and no default of its own): it has no default then, whatever its typedefs say
 	InCase    bool `json:"in_case,omitempty"`
+	// PerAfter / PerTypedef (path "../per"): the leaf pointed at is written after the leafref (after the uses), and takes
+	// its type from a typedef of its own container that states a default and units
+	PerAfter   bool `json:"per_after,omitempty"`
+	PerTypedef bool `json:"per_typedef,omitempty"`
 	// InCase2 (with InCase): the case holds a second choice and the leaf sits in a case of that one ("case"), or directly
 	// in the inner choice as its own shorthand case ("short"): neither level exists in data
 	InCase2 string `json:"in_case2,omitempty"`
@@ -310,6 +314,7 @@ func c02Gen(t *rapid.T) c02Case {
 		}
 	}
 	c.InCase = rapid.IntRange(0, 3).Draw(t, "in-case") == 0
+	c.PerAfter, c.PerTypedef = rapid.Bool().Draw(t, "per-after"), rapid.Bool().Draw(t, "per-typedef")
 	if c.InCase {
 		c.InCase2 = rapid.SampledFrom([]string{"", "case", "short"}).Draw(t, "in-case2")
 	}
@@ -562,8 +567,19 @@ func (c c02Case) files() map[string]string {
 			name = fmt.Sprintf("inner%d", u+1)
 		}
 		fmt.Fprintf(&m, "  container %s {\n", name)
+		per := ""
 		if c.Path == "../per" {
-			fmt.Fprintf(&m, "   leaf per {\n    type %s;\n   }\n", c02PerUseTypes[u%len(c02PerUseTypes)])
+			pt := c02PerUseTypes[u%len(c02PerUseTypes)]
+			per = fmt.Sprintf("   leaf per {\n    type %s;\n   }\n", pt)
+			if c.PerTypedef {
+				// the leaf pointed at takes its type from a typedef of its own container, with a default and units that
+				// are none of the leafref's business
+				dv := map[string]string{"uint8": "7", "string": "pd", "boolean": "true"}[pt]
+				per = fmt.Sprintf("   typedef pt {\n    type %s;\n    default %q;\n    units \"pu\";\n   }\n   leaf per {\n    type pt;\n   }\n", pt, dv)
+			}
+		}
+		if !c.PerAfter {
+			m.WriteString(per)
 		}
 		if c.Grouping && c.RefineUse == u+1 {
 			fmt.Fprintf(&m, "   uses g {\n    refine x {\n     default %q;\n    }\n   }\n", c.RefineDefault)
@@ -573,6 +589,9 @@ func (c c02Case) files() map[string]string {
 			m.WriteString(c.typedefs("inner", "   "))
 			fmt.Fprintf(&m, "   leaf sib {\n    %s\n   }\n", c.targetType())
 			m.WriteString(c.leafYang("   "))
+		}
+		if c.PerAfter {
+			m.WriteString(per) // (the leaf pointed at is written after the uses / the leafref)
 		}
 		m.WriteString("  }\n")
 	}
